@@ -641,7 +641,7 @@ func c14RunLane(t *testing.T, s *verifh.Session, e *c14Env, cases []*c14Case, ne
 			human += " :: " + why
 		}
 		// the brotli library reports a truncated stream as a clean EOF (see the unit lane)
-		if !ok && class == "" && c.stream == "trunc" && len(c.ce) > 0 && c.ce[0] == "br" && c.auto && o.term == "eof" {
+		if !ok && !o.bodyNil && c.stream == "trunc" && len(c.ce) > 0 && c.ce[0] == "br" && c.auto && o.term == "eof" {
 			if _, _, term := verifc14.Ref("br", c.wire, io.EOF); term == "eof" {
 				class = "br-truncated-eof"
 			}
@@ -701,5 +701,116 @@ func TestVerif_C14_e2e_h1(t *testing.T) {
 	r := s.Rand()
 	cases := append(c14Matrix(r, "h1"), c14Random(r, "h1", verifh.N(150, 3000), verifh.N(3, 12))...)
 	c14RunLane(t, s, e, cases, c14Need)
+	s.Finish()
+}
+
+// TestVerif_C14_e2e_h2: HTTP/2 (TLS + ALPN, Go's HTTP/2 server as origin).
+func TestVerif_C14_e2e_h2(t *testing.T) {
+	s := verifh.New(t, "C14", "e2e_h2", "HTTP/2: "+c14Rule)
+	e := c14NewEnv(t, "h2")
+	defer e.close()
+	r := s.Rand()
+	cases := append(c14Matrix(r, "h2"), c14Random(r, "h2", verifh.N(150, 3000), verifh.N(3, 12))...)
+	c14RunLane(t, s, e, cases, c14Need)
+	s.Finish()
+}
+
+// TestVerif_C14_e2e_h3: HTTP/3 (quic-go http3 server on loopback UDP as origin).
+func TestVerif_C14_e2e_h3(t *testing.T) {
+	s := verifh.New(t, "C14", "e2e_h3", "HTTP/3: "+c14Rule)
+	e := c14NewEnv(t, "h3")
+	defer e.close()
+	r := s.Rand()
+	cases := append(c14Matrix(r, "h3"), c14Random(r, "h3", verifh.N(120, 3000), verifh.N(2, 12))...)
+	c14RunLane(t, s, e, cases, c14Need)
+	s.Finish()
+}
+
+// TestVerif_C14_cross: the SAME exchange (configuration, method, encoding, payload, stream,
+// read sizes) over the three protocols; the observations must be identical (the property's
+// "independent of the HTTP version"), and a second run with other read sizes must give the
+// same bytes ("independent of read sizes").
+func TestVerif_C14_cross(t *testing.T) {
+	s := verifh.New(t, "C14", "cross",
+		"the same generated exchange (matrix sample + decoded random cases incl. truncated/flipped streams) sent over HTTP/1.1, HTTP/2 and HTTP/3 and, on one of them, twice with different Read sizes; the canonical observations (Accept-Encoding at the origin, tracked headers, ContentLength, Uncompressed, body digest+end) must coincide; non-trivial = decoded or Content-Encoding present")
+	e := c14NewEnv(t, "h1", "h2", "h3")
+	defer e.close()
+	r := s.Rand()
+	protos := []string{"h1", "h2", "h3"}
+	var base []*c14Case
+	m := c14Matrix(r, "x")
+	r.Shuffle(len(m), func(i, j int) { m[i], m[j] = m[j], m[i] })
+	base = append(base, m[:verifh.N(90, len(m))]...)
+	base = append(base, c14Random(r, "x", verifh.N(80, 1500), verifh.N(1, 4))...)
+	hist := map[string]int{}
+	for _, b := range base {
+		var answers []string
+		var obs []c14Obs
+		class := ""
+		transportAsked := !b.dc && b.ae == "" && b.rng == "" && b.method != "HEAD"
+		for _, p := range protos {
+			c := *b
+			c.mu = sync.Mutex{}
+			c.proto = p
+			c.id = p + "-" + b.id
+			o := e.run(&c)
+			obs = append(obs, o)
+			if o.panicText != "" {
+				answers = append(answers, "panic")
+			} else {
+				answers = append(answers, o.answer())
+			}
+			if cl := c.class(transportAsked); cl != "" && class == "" {
+				class = cl
+			}
+		}
+		// second read schedule on a rotating protocol
+		c2 := *b
+		c2.mu = sync.Mutex{}
+		c2.proto = protos[len(answers)%3]
+		c2.proto = protos[r.Intn(3)]
+		c2.id = c2.proto + "-again-" + b.id
+		c2.sizes = verifc14.Sizes(r)
+		o2 := e.run(&c2)
+		same := answers[0] == answers[1] && answers[1] == answers[2]
+		var again string
+		if o2.panicText != "" {
+			again = "panic"
+		} else {
+			again = o2.answer()
+		}
+		idx := map[string]int{"h1": 0, "h2": 1, "h3": 2}[c2.proto]
+		sameReads := again == answers[idx]
+		// a zero-length body with a Content-Encoding: HTTP/3 has no bodiless exit (documented)
+		if b.stream == "emptywire" || (len(b.wire) == 0 && len(b.ce) > 0 && b.method != "HEAD") {
+			same = answers[0] == answers[1]
+			s.Count("emptywire")
+		}
+		ce := "-"
+		if len(b.ce) > 0 {
+			ce = strings.Join(b.ce, "|")
+		}
+		human := fmt.Sprintf("%s dc=%v auto=%v callerAE=%q range=%q CE=%q stream=%s/%s framing=%s payload=%dB wire=%dB", b.method, b.dc, b.auto, b.ae, b.rng, ce, b.alg, b.stream, b.framing, len(b.payload), len(b.wire))
+		detail := fmt.Sprintf("h1: %s | h2: %s | h3: %s | %s with reads %v: %s", answers[0], answers[1], answers[2], c2.proto, c2.sizes, again)
+		if !same {
+			human += " :: the three protocols differ"
+		} else if !sameReads {
+			human += " :: read sizes change the outcome"
+		}
+		if same {
+			s.Count("agree")
+			hist["agree"]++
+		}
+		if obs[0].unc {
+			s.Count("decoded")
+			hist["decoded"]++
+		}
+		s.Observe(b.id, same && sameReads, class, obs[0].unc || len(b.ce) > 0, human, detail)
+	}
+	for _, k := range []string{"agree", "decoded"} {
+		if hist[k] == 0 {
+			t.Errorf("bucket %s not reached", k)
+		}
+	}
 	s.Finish()
 }
